@@ -672,6 +672,11 @@ func (fv *FuncVerifier) verifyUnit(lit *ast.FuncLit) {
 					al := fv.heapGet(st, "$ghost:alloc", "(Array Ref Bool)")
 					st.Assume(Or(App(SBool, "=", v, Null), App(SBool, "select", al, v)))
 				}
+				if v.Sort == fv.w.SeqSort(SRef) {
+					// elements of a slice of references are nil or allocated
+					al := fv.heapGet(st, "$ghost:alloc", "(Array Ref Bool)")
+					st.Assume(T(SBool, "(forall ((i$ Int)) (! (=> (and (<= 0 i$) (< i$ (len_Ref %[1]s))) (or (= (at_Ref %[1]s i$) null) (select %[2]s (at_Ref %[1]s i$)))) :pattern ((at_Ref %[1]s i$))))", v.S, al.S))
+				}
 				fv.entryParams[o] = v
 			}
 		}
@@ -739,29 +744,51 @@ func (fv *FuncVerifier) verifyUnit(lit *ast.FuncLit) {
 	for _, cl := range fi.Contr.Get("assume", 0, fv.curLit) {
 		st.Assume(fv.evalClause(st, cl, pos, nil, nil))
 	}
-	// `stable p.f, q.g`: these cells are assumed not to be modified by calls with unknown effects
+	// `stable p.f, p.f.g`: these cells are assumed not to be modified by calls with unknown effects
 	for _, cl := range fi.Contr.Get("stable", 0, fv.curLit) {
 		for _, tgt := range splitTopLevel(cl.Text, ',') {
 			parts := strings.Split(strings.TrimSpace(tgt), ".")
-			if len(parts) != 2 {
-				fv.bindErrors = append(fv.bindErrors, cl.Pos+": stable target must be param.field")
+			if len(parts) < 2 {
+				fv.bindErrors = append(fv.bindErrors, cl.Pos+": stable target must be param.field[.field]")
 				continue
 			}
+			found := false
 			for o, v := range fv.entryParams {
 				if o.Name() != parts[0] {
 					continue
 				}
-				if pt, ok := o.Type().Underlying().(*types.Pointer); ok {
-					if stt, ok := pt.Elem().Underlying().(*types.Struct); ok {
-						for j := 0; j < stt.NumFields(); j++ {
-							if stt.Field(j).Name() == parts[1] {
-								key := fieldKey(o.Type(), parts[1])
-								fv.readField(st, v, key, fv.sortOf(stt.Field(j).Type()))
-								st.stableCells = append(st.stableCells, stableCell{key, v})
-							}
+				ref := v
+				ct := o.Type()
+				for k := 1; k < len(parts); k++ {
+					pt, ok := ct.Underlying().(*types.Pointer)
+					if !ok {
+						break
+					}
+					stt, ok := pt.Elem().Underlying().(*types.Struct)
+					if !ok {
+						break
+					}
+					var fld *types.Var
+					for j := 0; j < stt.NumFields(); j++ {
+						if stt.Field(j).Name() == parts[k] {
+							fld = stt.Field(j)
 						}
 					}
+					if fld == nil {
+						break
+					}
+					key := fieldKey(ct, parts[k])
+					val := fv.readField(st, ref, key, fv.sortOf(fld.Type()))
+					if k == len(parts)-1 {
+						st.stableCells = append(st.stableCells, stableCell{key, ref})
+						found = true
+					}
+					ref = val
+					ct = fld.Type()
 				}
+			}
+			if !found {
+				fv.bindErrors = append(fv.bindErrors, cl.Pos+": stable target "+tgt+" not understood")
 			}
 		}
 	}
@@ -978,16 +1005,44 @@ func (fv *FuncVerifier) frameObligations(s2 *State, site token.Pos) {
 			}
 		}
 	}
-	if star {
+	pfx, exc := preservesOf(c)
+	if star && pfx == "" {
 		return
 	}
 	mk := func(name string, goal Term, desc string) {
 		fv.obls = append(fv.obls, &Obligation{Func: fv.fn.Key, Class: "R", Kind: "frame", Site: site, Pos: fv.pos(site),
 			Assume: append([]Term(nil), s2.pc...), Goal: goal, Desc: desc, consts: fv.consts, Name: fv.fn.Key + "#R.frame[" + name + "]"})
 	}
+	keyOK := func(k string) bool {
+		if !star {
+			return true
+		}
+		return havocEvent{prefix: pfx, except: exc}.preserves(k)
+	}
 	if s2.epoch != fv.entry.epoch {
-		mk("*", False, "an effect with unknown footprint happened on this path (call without contract / unknown external), but the contract promises a frame")
-		return
+		if !star {
+			mk("*", False, "an effect with unknown footprint happened on this path (call without contract / unknown external), but the contract promises a frame")
+			return
+		}
+		// assigns * with `preserves`: every havoc on this path must itself have preserved the promised fields
+		for _, h := range s2.havocs {
+			ok := h.prefix != "" && h.prefix == pfx
+			for _, e := range h.except {
+				found := false
+				for _, e2 := range exc {
+					if e2 == e {
+						found = true
+					}
+				}
+				if !found {
+					ok = false
+				}
+			}
+			if !ok {
+				mk("preserves", False, fmt.Sprintf("a call with unknown effects on this path does not promise to preserve the fields %s* (havoc events: %+v)", pfx, s2.havocs))
+				return
+			}
+		}
 	}
 	al0 := fv.heapGet(fv.entry, "$ghost:alloc", "(Array Ref Bool)")
 	keys := map[string]bool{}
@@ -1006,6 +1061,9 @@ func (fv *FuncVerifier) frameObligations(s2 *State, site token.Pos) {
 	}
 	sort.Strings(ks)
 	for _, k := range ks {
+		if !keyOK(k) {
+			continue
+		}
 		hf, ok := s2.heap[k]
 		var srt Sort
 		if ok {
@@ -1034,8 +1092,15 @@ func (fv *FuncVerifier) frameObligations(s2 *State, site token.Pos) {
 			}
 		}
 		cond := And(append([]Term{App(SBool, "select", al0, Term{"r$", SRef})}, excl...)...)
+		if owner, ok := keyOwner[k]; ok {
+			// a field only exists in objects of its own type
+			cond = And(cond, App(SBool, "=", App(SInt, "dyn", Term{"r$", SRef}), fv.w.Tag(owner)))
+		}
 		goal := T(SBool, "(forall ((r$ Ref)) (=> %s (= (select %s r$) (select %s r$))))", cond.S, hf.S, h0.S)
 		mk(k, goal, "heap field "+k+" of every object that existed on entry and is not named in assigns is unchanged")
+	}
+	if star {
+		return
 	}
 	// map parameters are references: unchanged unless named
 	for o, v0 := range fv.entryParams {
